@@ -55,6 +55,10 @@ var checks = map[string]check{
 }
 
 func main() {
+	if len(os.Args) >= 5 && os.Args[1] == "c11worker" {
+		c11.Worker(os.Args[2:])
+		return
+	}
 	if len(os.Args) >= 6 && os.Args[1] == "c19worker" {
 		c19.Worker(os.Args[2:])
 		return
